@@ -147,12 +147,12 @@ Proof. apply flat_map_app. Qed.
 
 (* ---- the state invariant --------------------------------------------------------------------------- *)
 Record SInv (cf : cfg) (s : state) : Prop := {
-  i_next : 1 <= p_next (pl s) <= max_tag cf - 1;
-  i_range : forall t, In t (L s) -> 2 <= t <= p_next (pl s);
+  i_next : base cf <= p_next (pl s) <= max_tag cf - 1;
+  i_range : forall t, In t (L s) -> base cf + 1 <= t <= p_next (pl s);
   i_nodup : NoDup (L s);
-  i_cover : closed s = false -> forall t, 2 <= t <= p_next (pl s) -> In t (L s);
-  i_count : closed s = false -> Z.of_nat (length (L s)) = p_next (pl s) - 1;
-  i_qrange : forall t c, In (t, c) (qreqs (sendq s)) -> 2 <= t <= p_next (pl s);
+  i_cover : closed s = false -> forall t, base cf + 1 <= t <= p_next (pl s) -> In t (L s);
+  i_count : closed s = false -> Z.of_nat (length (L s)) = p_next (pl s) - base cf;
+  i_qrange : forall t c, In (t, c) (qreqs (sendq s)) -> base cf + 1 <= t <= p_next (pl s);
   i_key : closed s = false -> forall c r t,
       lookup c (calls s) = Some r -> c_conn r = conn s -> c_tagkey r = Some t -> In (t, c) (tmap s);
   i_qknown : forall t c, In (t, c) (qreqs (sendq s)) -> exists r, lookup c (calls s) = Some r /\ c_conn r = conn s;
@@ -163,7 +163,7 @@ Record SInv (cf : cfg) (s : state) : Prop := {
   i_qnodup : NoDup (map snd (qreqs (sendq s)))
 }.
 
-Lemma SInv_init cf : 2 <= max_tag cf -> SInv cf init.
+Lemma SInv_init cf : base cf <= max_tag cf - 1 -> SInv cf (start cf).
 Proof.
   intros H. constructor; cbn; try (intros; contradiction); try (intros; discriminate); try constructor; try lia.
 Qed.
@@ -287,10 +287,10 @@ Proof.
   - constructor.
 Qed.
 
-Lemma SInv_reopen cf s : SInv cf s -> SInv cf (fst (do_reopen s)).
+Lemma SInv_reopen cf s : SInv cf s -> SInv cf (fst (do_reopen cf s)).
 Proof.
   intros I. unfold do_reopen. destruct (closed s) eqn:Ec; [|assumption]. cbn [fst].
-  destruct I. constructor; simp_state; unfold pool_init, keys; cbn [map app p_free p_next length]; try rewrite qreqs_nil;
+  destruct I. constructor; simp_state; unfold pool_at, keys; cbn [map app p_free p_next length]; try rewrite qreqs_nil;
     try assumption; try (intros; discriminate); try (intros; contradiction); try lia.
   - constructor.
   - intros _ c r t Hl Hcn _. pose proof (i_conn0 _ _ Hl). lia.
@@ -330,11 +330,11 @@ Qed.
 (* AsyncProcessRequest obtained tag t: generic part *)
 Lemma SInv_enqueue cf s c r t p' :
   SInv cf s -> closed s = false -> lookup c (calls s) = None -> c_conn r = conn s -> c_tagkey r = Some t ->
-  1 <= p_next p' <= max_tag cf - 1 -> p_next (pl s) <= p_next p' ->
-  (forall x, In x (p_free p' ++ keys (tmap s) ++ [t]) -> 2 <= x <= p_next p') ->
+  base cf <= p_next p' <= max_tag cf - 1 -> p_next (pl s) <= p_next p' ->
+  (forall x, In x (p_free p' ++ keys (tmap s) ++ [t]) -> base cf + 1 <= x <= p_next p') ->
   NoDup (p_free p' ++ keys (tmap s) ++ [t]) ->
-  (forall x, 2 <= x <= p_next p' -> In x (p_free p' ++ keys (tmap s) ++ [t])) ->
-  Z.of_nat (length (p_free p' ++ keys (tmap s) ++ [t])) = p_next p' - 1 ->
+  (forall x, base cf + 1 <= x <= p_next p' -> In x (p_free p' ++ keys (tmap s) ++ [t])) ->
+  Z.of_nat (length (p_free p' ++ keys (tmap s) ++ [t])) = p_next p' - base cf ->
   SInv cf {| pl := p'; tmap := tmap s ++ [(t, c)]; sendq := sendq s ++ [QReq t c]; calls := calls s ++ [(c, r)];
              closed := false; conn := conn s |}.
 Proof.
@@ -493,7 +493,7 @@ Qed.
 Lemma SInv_exec cf s ls : SInv cf s -> SInv cf (exec cf s ls).
 Proof. revert s. induction ls as [|l ls IH]; intros s I; cbn; [assumption | apply IH, SInv_step, I]. Qed.
 
-Lemma SInv_reach cf ls : 2 <= max_tag cf -> SInv cf (exec cf init ls).
+Lemma SInv_reach cf ls : base cf <= max_tag cf - 1 -> SInv cf (exec cf (start cf) ls).
 Proof. intros H. apply SInv_exec, SInv_init, H. Qed.
 
 (* ---- the trace invariant: what the observable events say about unanswered written requests --------- *)
@@ -506,7 +506,7 @@ Record TInv (s : state) (acc : list (Z * Z) * list Z) (wr : list Z) : Prop := {
   t_wrknown : forall c, In c wr -> lookup c (calls s) <> None
 }.
 
-Lemma TInv_init : TInv init ([], []) [].
+Lemma TInv_init cf : TInv (start cf) ([], []) [].
 Proof. constructor; cbn; try (intros; contradiction). constructor. Qed.
 
 Definition known_mono (s s' : state) : Prop := forall c, lookup c (calls s) <> None -> lookup c (calls s') <> None.
@@ -584,7 +584,7 @@ Proof.
 Qed.
 
 Lemma TInv_reopen cf s acc wr :
-  SInv cf s -> TInv s acc wr -> TInv (fst (do_reopen s)) acc wr.
+  SInv cf s -> TInv s acc wr -> TInv (fst (do_reopen cf s)) acc wr.
 Proof.
   intros I T. unfold do_reopen. destruct (closed s) eqn:Ec; cbn [fst]; [|assumption].
   destruct (i_closed _ _ I Ec) as [Em _].
@@ -852,10 +852,10 @@ Proof.
 Qed.
 
 Lemma TInv_reach cf ls :
-  2 <= max_tag cf ->
-  TInv (exec cf init ls) (track_all ([], []) (trace cf init ls)) (written (trace cf init ls)).
+  base cf <= max_tag cf - 1 ->
+  TInv (exec cf (start cf) ls) (track_all ([], []) (trace cf (start cf) ls)) (written (trace cf (start cf) ls)).
 Proof.
-  intros H. apply (TInv_exec cf ls init ([], []) []); [apply SInv_init, H | apply TInv_init].
+  intros H. apply (TInv_exec cf ls (start cf) ([], []) []); [apply SInv_init, H | apply TInv_init].
 Qed.
 
 (* ---- what a step may write ------------------------------------------------------------------------ *)
@@ -878,9 +878,9 @@ Proof.
   intros H0. unfold do_write. destruct io; [|apply shutdown_frames]. cbn. intros [E|[]]. subst. assumption.
 Qed.
 
-Lemma step_frames cf s l e : SInv cf s -> In e (snd (step cf s l)) -> frame_ok cf e.
+Lemma step_frames cf s l e : 1 <= base cf -> SInv cf s -> In e (snd (step cf s l)) -> frame_ok cf e.
 Proof.
-  intros I. destruct l; cbn [step].
+  intros Hb I. destruct l; cbn [step].
   - unfold do_req. destruct (lookup c (calls s)); [intros []|]. destruct (closed s); [intros [E|[]]; subst; exact Logic.I|].
     destruct (pool_get _ _ _); intros [E|[]]; subst; exact Logic.I.
   - unfold do_send. destruct (closed s) eqn:Hop; [intros []|]. destruct (sendq s) as [|[t c|w|] q] eqn:E; [intros []| | |].
@@ -906,9 +906,9 @@ Proof.
   - unfold do_reopen. destruct (closed s); intros [].
 Qed.
 
-Lemma trace_frames cf ls : forall s e, SInv cf s -> In e (trace cf s ls) -> frame_ok cf e.
+Lemma trace_frames cf ls : 1 <= base cf -> forall s e, SInv cf s -> In e (trace cf s ls) -> frame_ok cf e.
 Proof.
-  induction ls as [|l ls IH]; intros s e I H; [destruct H|].
+  intros Hb. induction ls as [|l ls IH]; intros s e I H; [destruct H|].
   rewrite trace_cons in H. apply in_app_or in H as [H|H]; [eapply step_frames; eassumption|].
   eapply IH; [apply SInv_step, I | exact H].
 Qed.
@@ -990,7 +990,7 @@ Lemma step_next cf s l :
   p_next (pl s') = p_next (pl s) \/
   (p_free (pl s) = [] /\ p_free (pl s') = [] /\ closed s = false /\ closed s' = false /\
    p_next (pl s') = p_next (pl s) + 1 /\ exists c dl pick, l = Req c dl pick) \/
-  (l = Reopen /\ p_next (pl s') = 1).
+  (l = Reopen /\ p_next (pl s') = base cf).
 Proof.
   destruct l; cbn [step].
   - unfold do_req. destruct (lookup c (calls s)); [auto|]. destruct (closed s) eqn:Ec; [auto|].
@@ -1019,7 +1019,7 @@ Proof.
 Qed.
 
 Lemma peak_next cf ls : forall s p,
-  SInv cf s -> p_next (pl s) - 1 <= p -> p_next (pl (exec cf s ls)) - 1 <= peak cf s ls p.
+  SInv cf s -> p_next (pl s) - base cf <= p -> p_next (pl (exec cf s ls)) - base cf <= peak cf s ls p.
 Proof.
   induction ls as [|l ls IH]; intros s p I H; cbn [exec peak]; [assumption|].
   pose proof (SInv_step cf s l I) as I'. apply IH; [assumption|].
